@@ -161,7 +161,13 @@ def run_check(prop: str, tier: str, seed: int) -> int:
     except Exception as e:
         tb = traceback.extract_tb(e.__traceback__)
         in_repo = [fr for fr in tb if str(fr.filename).startswith(str(core.SRC.resolve())) or str(fr.filename).startswith(str(core.SRC))]
-        if in_repo:
+        if isinstance(e, core.NonFiniteValue):
+            # the implementation reported inf / nan for an input the property module considered in-domain
+            # (every module filters ill-posed / ill-conditioned inputs before encoding values)
+            out.spec_fail(dict(op='non_finite_reported_value'),
+                          'implementation reported a non-finite value (inf / nan) on a generated in-domain input',
+                          ''.join(traceback.format_exception(type(e), e, e.__traceback__))[-3000:])
+        elif in_repo:
             # an exception out of the implementation that no oracle of the property module anticipated:
             # the property is no longer shown to hold on an input the generators reached
             fr = in_repo[-1]
